@@ -36,11 +36,21 @@ FMT = "ctap2::AttestationStatementFormat"
 
 
 def find_visit_seq(F, type_path):
+    """(Deserialize::deserialize of the type, the visit_seq it hands the sequence to): the visitor is the type named in the
+    `deserialize_seq(<Visitor>)` call, wherever it is declared (inside the function or at module level)"""
     de = F.impl_fn("serde_core::de::Deserialize", type_path, "deserialize")
     if len(de) != 1:
         return None, None
     vs = F.nested(de[0], name="visit_seq")
-    return de[0], (vs[0] if len(vs) == 1 else None)
+    if len(vs) == 1:
+        return de[0], vs[0]
+    for x in H.walk(de[0]["body"]):
+        if (x.get("callee") or "").startswith("serde_core::de::Deserializer::deserialize_") and x.get("k") in ("call", "mcall"):
+            for t in (x.get("targs") or []):
+                cands = [f for f in F.fns if f["name"] == "visit_seq" and (f.get("impl") or {}).get("trait") == "serde_core::de::Visitor" and ((f["impl"]["self_ty"].get("path") or f["impl"]["self_ty"].get("s")) == t)]
+                if len(cands) == 1:
+                    return de[0], cands[0]
+    return de[0], None
 
 
 def fresh_value(t):
